@@ -616,7 +616,7 @@ def F09(p):
                         q.lines[i].lex[k - 1] = Lx("\t", "tab")
                         return i
                     cp = ln.lex[k - 2].t == "const" and k >= 3 and ln.lex[k - 3].t == "*"
-                    yield ln.kind + (":after-const-pointer" if cp else ":kw-type") + (":with-fptr-returning-pointer" if odd_params(ln) else ""), ap
+                    yield ln.kind + (":after-const-pointer" if cp else ":kw-type" + (":with-fptr-returning-pointer" if odd_params(ln) else "")), ap
                     break
                 if "param-name" in x.tags and ln.lex[k - 1].k == "sp" and ln.lex[k - 2].k == "type":
                     def ap(q, i=i, k=k):
